@@ -315,4 +315,105 @@ def normalize (g : List Rat) : List Rat := g.map (fun x => x / sumQ g)
     `mean + t * sd` with `t` the Student-t draw and `sd` the value of the square root (both parameters) -/
 def thompsonReward (c : Cell) (t sd : Rat) : Rat := if c.n < 2 then c.mean else c.mean + t * sd
 
+
+/-- parameters of the Dirichlet posterior of a row: the visit counts plus the Jeffreys prior 1/2
+    (`getVisitsTable(a).row(s).array().cast<double>() + 0.5`, `getVisits(s,a,s1) + 0.5`) -/
+def dirichletParams (cnt : List Nat) : List Rat := cnt.map (fun (c : Nat) => (c : Rat) + 1 / 2)
+
+/-- the Student-t posterior of the mean reward that `sync` draws from when `visits >= 2`:
+    location `mean`, squared scale `M2 / (visits * (visits - 1))`, `visits - 1` degrees of freedom -/
+structure TPost where
+  loc : Rat
+  scale2 : Rat
+  dof : Nat
+  deriving Repr, BEq, Inhabited
+
+def thompsonPost (c : Cell) : Option TPost :=
+  if c.n < 2 then none
+  else some { loc := c.mean, scale2 := c.m2 / (((c.n * (c.n - 1) : Nat)) : Rat), dof := c.n - 1 }
+
+/-- `ThompsonModel::sync(s,a)` / `CooperativeThompsonModel::syncRow` as a function of the engine's outputs:
+    `gs` the gamma draws (one per next state, in order), `t` the Student-t draw, `sd` the value of the square root -/
+def Pair.thompsonSync (p : Pair) (gs : List Rat) (t sd : Rat) : Pair :=
+  { p with row := normalize gs, rew := thompsonReward p.cell t sd }
+
+
+/-! ### the table setters of `Experience` / `SparseExperience`
+    (`setVisitsTable`, `setRewardMatrix`, `setM2Matrix`, Eigen-typed and element-wise overloads), restricted to one pair -/
+
+def sumN : List Nat → Nat
+  | [] => 0
+  | x :: xs => x + sumN xs
+
+/-- experience part of a pair -/
+structure EPair where
+  cell : Cell
+  cnt : List Nat
+  deriving Repr, BEq, Inhabited
+
+inductive EOp where
+  | record (s1 : Nat) (r : Rat)
+  | reset
+  /-- `setVisitsTable`: the pair's visit row is replaced, `visitsSum_` becomes the row sum -/
+  | setCnt (row : List Nat)
+  /-- `setRewardMatrix` -/
+  | setMean (m : Rat)
+  /-- `setM2Matrix` -/
+  | setM2 (m : Rat)
+  | nop
+  deriving Repr, BEq, Inhabited
+
+/-- element-wise `SparseExperience::setRewardMatrix / setM2Matrix`: an entry is stored only
+    `if (checkDifferentSmall(0.0, x))`, i.e. dropped to 0 when `|x| ≤ tol`; every other overload stores `x` -/
+def storeTol (tol : Option Rat) (x : Rat) : Rat :=
+  match tol with
+  | none => x
+  | some t => if absQ x ≤ t then 0 else x
+
+def EPair.step (tol : Option Rat) (e : EPair) : EOp → EPair
+  | .record s1 r => { cell := e.cell.record r, cnt := bump e.cnt s1 }
+  | .reset => { cell := Cell.init, cnt := e.cnt.map (fun _ => 0) }
+  | .setCnt row => { cell := { e.cell with n := sumN row }, cnt := row }
+  | .setMean m => { e with cell := { e.cell with mean := storeTol tol m } }
+  | .setM2 m => { e with cell := { e.cell with m2 := storeTol tol m } }
+  | .nop => e
+
+def EPair.run (tol : Option Rat) (e : EPair) (h : List EOp) : EPair := h.foldl (EPair.step tol) e
+
+def EPair.init (w : Nat) : EPair := { cell := Cell.init, cnt := List.replicate w 0 }
+
+/-- the statistics the property demands when prior data was loaded through the setters: sufficient statistics add up -/
+def priorN (b : Cell) (l : List (Nat × Rat)) : Nat := b.n + l.length
+def priorMean (b : Cell) (l : List (Nat × Rat)) : Rat :=
+  if l.isEmpty then b.mean else ((b.n : Rat) * b.mean + sumR l) / ((b.n + l.length : Nat) : Rat)
+def sumR2 : List (Nat × Rat) → Rat
+  | [] => 0
+  | (_, r) :: t => r * r + sumR2 t
+def priorM2 (b : Cell) (l : List (Nat × Rat)) : Rat :=
+  if l.isEmpty then b.m2
+  else b.m2 + (b.n : Rat) * b.mean * b.mean + sumR2 l - ((b.n + l.length : Nat) : Rat) * priorMean b l * priorMean b l
+
+/-- specification side: the pair's state at the last setter/reset (`base`) and the records since -/
+structure EGhost where
+  base : EPair
+  since : List (Nat × Rat)
+  deriving Repr, BEq, Inhabited
+
+/-- what the pair must hold now, by the closed forms (no running update) -/
+def EGhost.current (w : Nat) (g : EGhost) : EPair :=
+  { cell := ⟨priorN g.base.cell g.since, priorMean g.base.cell g.since, priorM2 g.base.cell g.since⟩,
+    cnt := (List.range w).map (fun i => nthN g.base.cnt i + countS1 i g.since) }
+
+/-- a setter (or `reset`) is an assignment on the current value and starts a new base -/
+def EGhost.step (tol : Option Rat) (w : Nat) (g : EGhost) : EOp → EGhost
+  | .record s1 r => { g with since := g.since ++ [(s1, r)] }
+  | .nop => g
+  | op => { base := (g.current w).step tol op, since := [] }
+
+def EGhost.run (tol : Option Rat) (w : Nat) (g : EGhost) (h : List EOp) : EGhost := h.foldl (EGhost.step tol w) g
+
+def eopWF (w : Nat) : EOp → Bool
+  | .setCnt row => row.length == w
+  | _ => true
+
 end AITB.Exp
